@@ -100,9 +100,13 @@ def run_part(ctx, build):
     ex = gen_formulas_exhaustive([1, 2, 3] if not thorough else [1, 2, 3, 4], 2)
     if not thorough and len(ex) > 60000:
         ex = ex[:2000] + rng.sample(ex[2000:], 40000)
-    ex3 = gen_formulas_exhaustive([1, 2], 3) if thorough else []
-    if len(ex3) > 400000:
-        ex3 = rng.sample(ex3, 400000)
+    # depth 3 is not enumerable (~10^8 formulas): thorough samples it instead
+    ex3 = []
+    if thorough:
+        lvl2 = gen_formulas_exhaustive([1, 2], 2)
+        for _ in range(300000):
+            f, g = rng.choice(lvl2), rng.choice(lvl2)
+            ex3.append([rng.choice("&|")] + f + g if rng.random() < 0.85 else ["~"] + f)
     for f in ex + ex3:
         lines.append("B " + " ".join(f))
     nrand = 20000 if not thorough else 200000
